@@ -14,6 +14,7 @@ LEVEL_TEXT = (
     'sessions, bytes that parse differently under 2-/4-byte AS or with/without path identifiers, a malformed variant followed by the '
     'well-formed one, End-of-RIBs), deliveries interleaved by the scheduler; oracle: every API event and the final Adj-RIB-In equal what '
     'the same tree produces for that message alone on a pristine process state under the same negotiated parameters.'
+    ' Session kinds include AIGP enabled and a second local address; the OPEN events of both directions are compared too, with one session brought up late.'
 )
 LEVEL_NOTE = (
     'differential against ExaBGP itself by design (the property is history-independence, not correctness of decoding). The reference runs '
